@@ -272,7 +272,7 @@ CHECKS["C02"] = {
              {"bin": "c09_inter", "deadline": {"quick": 300, "thorough": 900}}],
     "rule": ("the C01 program space restricted to programs containing at least one assertion (numeric assert(x<=1), assert(x>=0), assert(x<=y); "
              "bool_assert in the boolean family), each occurrence with its own debug id. For every domain / fixpoint parameter tuple: "
-             "intra_fwd_analyzer + intra_checker(assert_property_checker), and intra_forward_backward_analyzer with enable_backward x "
+             "intra_fwd_analyzer + intra_checker(assert_property_checker) and intra_checker(div_zero_property_checker, assert_property_checker), and intra_forward_backward_analyzer with enable_backward x "
              "max_refine_iterations {0,1,5} x use_refined_invariants + intra_checker. SAFE => no explored execution reaches the assertion with a "
              "false condition; UNREACHABLE => no explored execution reaches it. Warnings are never judged. Job 3: n<=2 blocks with the 33-statement alphabet (division, remainder, bitwise, "
              "multiplication, both select forms, unreachable, ...) and every two-statement block (statement; assertion). Job 4: the C09 call-graph space with an "
